@@ -67,6 +67,9 @@ type c15 struct {
 	r    *Run
 	p    *Prog
 	sums *Summaries
+	// YAML record readers: the pinned helper or the section loop that restores the records in place (robust_c15_inline.go)
+	yamlRd map[string]*c15YamlReader
+	yamlRg map[*ssa.Function][]*c15YamlRegion
 }
 
 func (c *c15) isActName(t *Term) (*Term, bool) {
@@ -1105,9 +1108,24 @@ func (c *c15) yamlRecords() {
 	}
 	for _, pr := range pairs {
 		wfn := p.Func(PkgG, pr.w)
-		rfn := p.Func(PkgG, pr.rd)
+		rd := c.yamlReader(pr.rd)
+		if rd.why != "" {
+			// fail closed: neither the helper nor a loop that restores the records in place
+			c.r.Undecided(pr.label+".reader", p.Pos(rd.fn.Pos()), rd.why)
+			continue
+		}
+		rfn := rd.fn
 		slots, ok := c.yamlWriterSlots(wfn, pr.label)
 		if !ok {
+			continue
+		}
+		if g := rd.region; g != nil {
+			// the record is built by the section loop itself: the element document of the iteration stands for the
+			// helper's document parameter, the state of the object at its hand-over for the helper's returned object
+			sf := &slotFinder{docParam: g.isDoc}
+			robj := &readerObject{fields: map[string][]*Term{}, elems: map[string][]*Term{}}
+			c.flatten(rfn, g.sm, "", pr.tab, robj, 0)
+			c.recordPair(pr.label, pr.tab, wfn, 1, slots, rfn, sf, robj, nil)
 			continue
 		}
 		dp := pr.docParam
